@@ -51,7 +51,12 @@ extern unsigned vp_pre_violated;
 #define vp_pre_calls 0u
 #define vp_pre_violated 0u
 #endif
-#define KCALLS() (vp_uf_block_calls + vp_uf_bashf_calls + vp_pre_calls)
+#ifdef KC_LL
+extern unsigned vp_ll_calls;       /* counting stubs of the low-level Start/Step functions (lowlevel_count.c) */
+#else
+#define vp_ll_calls 0u
+#endif
+#define KCALLS() (vp_uf_block_calls + vp_uf_bashf_calls + vp_pre_calls + vp_ll_calls)
 #else
 #define KCALLS() 0
 #define vp_pre_violated 0u
